@@ -158,6 +158,7 @@ func buildHarnessHandlers(h map[string]handler) {
 			}
 			return true
 		}, nil)
+		e.observeAll()
 		return nil
 	}
 	h[H+"QuiesceAll"] = func(e *Exec, fn *ssa.Function, a []Value) Value {
@@ -175,6 +176,7 @@ func buildHarnessHandlers(h map[string]handler) {
 			}
 			return true
 		}, nil)
+		e.observeAll()
 		return nil
 	}
 	h[H+"Yield"] = func(e *Exec, fn *ssa.Function, a []Value) Value {
@@ -286,4 +288,18 @@ func (e *Exec) traceValue(v Value, m map[string]interface{}, memo map[*Term]inte
 		return "[" + strings.Join(parts, " ") + "]"
 	}
 	return fmt.Sprintf("<%T>", v)
+}
+
+// observeAll: a quiescent observation by the harness is ordered after everything that happened
+// (it is not part of the program under test): join every goroutine's clock.
+func (e *Exec) observeAll() {
+	if !e.cfg.Race {
+		return
+	}
+	vc := e.gvc()
+	for _, o := range e.sch.gs {
+		if o.vc != nil {
+			vc.join(o.vc)
+		}
+	}
 }
